@@ -12,6 +12,7 @@ import (
 	"pgregory.net/rapid"
 	"verifharness/gen"
 	"verifharness/sim"
+	"verifharness/simminer"
 	"verifharness/vkit"
 )
 
@@ -52,54 +53,107 @@ func checkFailedCall(h *sim.History, txn *transaction.Transaction, twinRoot stri
 	return nil
 }
 
-// runC02 executes one contract call with the C02 oracle around it.
-func runC02(h *sim.History, txn *transaction.Transaction) (o sim.Outcome, wroteBeforeFailing bool, err error) {
-	var twinRoot string
-	twinOK := false
+// c02Run carries the shadow of the block under construction: a fork taken when the block had no failed call yet, on which
+// every chargeable failure is replaced by its fee-only twin (a plain data transaction with the same sender, fee, nonce,
+// hash and time) and every other transaction is executed unchanged. The shadow never runs the code of a failing call, so
+// whatever such a call leaves behind - in the trie or in a state cache that later transactions read through - shows up as
+// a difference between the two state roots, at the failing transaction or at a later one of the same block.
+type c02Run struct {
+	h             *sim.History
+	shadow        *sim.Block
+	failedInBlock int
+}
+
+// newBlock must be called right after a block was opened (before its first transaction).
+func (r *c02Run) newBlock() { r.shadow, r.failedInBlock = r.h.Cur.ShadowAtOpen(), 0 }
+
+// run executes one transaction with the C02 oracle around it.
+func (r *c02Run) run(txn *transaction.Transaction) (o sim.Outcome, wroteBeforeFailing bool, err error) {
+	h := r.h
 	dry := sim.DryResult{}
 	if txn.TransactionType == transaction.TxnTypeSmartContract {
 		dry = h.Cur.DryRun(txn)
-		f := h.Cur.Fork()
-		twin := sim.CloneTxn(txn)
-		twin.TransactionType = transaction.TxnTypeData
-		twin.Hash = txn.Hash
-		if to := f.Exec(twin); !to.Rejected {
-			twinOK, twinRoot = true, f.Root()
-		}
 	}
 	n := len(h.Cur.B.Events)
 	o, err = h.Do(txn)
 	if err != nil {
 		return o, false, err
 	}
-	if o.Failed {
-		if err := checkFailedCall(h, txn, twinRoot, twinOK, h.Cur.B.Events[n:], o); err != nil {
+	switch {
+	case o.Rejected:
+		if so := r.shadow.Exec(sim.CloneTxn(txn)); !so.Rejected && r.failedInBlock > 0 {
+			return o, false, viol("C02", "later-transaction-saw-failed-call", h, "a transaction rejected after %d failed call(s) in this block is accepted on a state where those calls only paid their fee", r.failedInBlock)
+		}
+		return o, false, nil
+	case o.Failed:
+		twin := sim.CloneTxn(txn)
+		twin.TransactionType = transaction.TxnTypeData
+		twin.Hash = txn.Hash
+		to := r.shadow.Exec(twin)
+		r.failedInBlock++
+		if to.Rejected {
+			return o, false, fmt.Errorf("VERIF-HARNESS-ERROR twin rejected: %v", to.Err)
+		}
+		if err := checkFailedCall(h, txn, r.shadow.Root(), !to.Rejected, h.Cur.B.Events[n:], o); err != nil {
 			return o, false, err
 		}
 		wroteBeforeFailing = dry.Err != nil && (dry.Writes > 0 || dry.Transfers > 0)
+	default:
+		so := r.shadow.Exec(sim.CloneTxn(txn))
+		if r.failedInBlock == 0 {
+			if so.Rejected || so.Failed || r.shadow.Root() != h.Cur.Root() {
+				// no failed call involved, so this is not C02's business (C06 compares repeated executions); the shadow of
+				// this block is of no use any more
+				return o, false, fmt.Errorf("VERIF-HARNESS-ERROR shadow diverged without a failed call: shadow rejected=%v failed=%v root %s vs %s", so.Rejected, so.Failed, r.shadow.Root()[:12], h.Cur.Root()[:12])
+			}
+			return o, false, nil
+		}
+		if so.Rejected || so.Failed || r.shadow.Root() != h.Cur.Root() || so.Output != o.Output {
+			return o, false, viol("C02", "later-transaction-saw-failed-call", h, "after %d failed call(s) in this block a successful transaction gives state root %s (output %.80q); on a state where the failed calls only paid their fee the same transaction gives %s (rejected=%v failed=%v output %.80q): a failed call left something behind that later transactions read", r.failedInBlock, h.Cur.Root()[:12], o.Output, r.shadow.Root()[:12], so.Rejected, so.Failed, so.Output)
+		}
 	}
 	return o, wroteBeforeFailing, nil
 }
 
 func TestC02_FailedCallOnlyPaysFee(t *testing.T) {
 	s := boot(t)
-	st := vkit.For("C02").SetRule("generated histories biased to contract calls that fail (garbage and perturbed payloads to every contract, faucet calls beyond limits and balances, plus the contract-specific generators); for every call applied as a chargeable failure: state root == root of a fork of the pre-state after a plain data transaction with the same sender, fee, nonce, hash and time (fee + nonce and nothing else), exactly one error event whose text is the transaction output and no contract events; non-trivial = failing call for which an instrumented dry run on a scratch state shows >= 1 state write or queued transfer before the error (the rollback had something to roll back); distinct by (contract, function, error text)")
+	st := vkit.For("C02").SetRule("generated histories biased to contract calls that fail (garbage and perturbed payloads to every contract, semi-valid calls of real functions with well-formed ids and lock-sized values, faucet calls beyond limits and balances, plus the contract-specific late-failure generators), on a chain with none / demeter / demeter+electra hard forks recorded; oracle: a shadow of the block in which every chargeable failure is replaced by a plain data transaction with the same sender, fee, nonce, hash and time and everything else is executed unchanged must have the same state root after every transaction of the block - at the failing call (fee + nonce and nothing else) and at every later transaction (nothing readable was left in a state cache); the failing call returns exactly one error event whose text is the transaction output and no contract events; non-trivial = failing call for which an instrumented dry run on a scratch state shows >= 1 state write or queued transfer before the error (the rollback had something to roll back); distinct by (contract, function, error text)")
 	rapid.Check(t, func(t *rapid.T) {
 		h := s.NewHistory(s.Genesis)
 		h.Monitors = []sim.Monitor{supplyMonitor}
 		e := gen.NewEnv(h)
+		r := &c02Run{h: h}
+		r.newBlock()
+		forks := rapid.SampledFrom([]string{"none", "demeter", "demeter+electra", "demeter"}).Draw(t, "forks")
+		if forks != "none" {
+			if o, _, err := r.run(simminer.AddHardfork(h, s.Owner, "demeter", h.Round, 0)); err != nil || o.Failed || o.Rejected {
+				t.Fatalf("VERIF-HARNESS-ERROR add_hardfork: %v %+v", err, o)
+			}
+		}
+		if forks == "demeter+electra" {
+			if o, _, err := r.run(simminer.AddHardfork(h, s.Owner, "electra", h.Round, 0)); err != nil || o.Failed || o.Rejected {
+				t.Fatalf("VERIF-HARNESS-ERROR add_hardfork: %v %+v", err, o)
+			}
+		}
+		st.Class("forks=" + forks)
 		steps := rapid.IntRange(6, vkit.Scale(30, 60)).Draw(t, "steps")
-		failed := 0
+		failed, afterFailed := 0, 0
 		for i := 0; i < steps; i++ {
-			if rapid.IntRange(0, 9).Draw(t, "blockBoundary") == 0 {
+			if rapid.IntRange(0, 14).Draw(t, "blockBoundary") == 7 {
 				h.NextBlock(1, int64(rapid.SampledFrom([]int{1, 30, 20000}).Draw(t, "seconds")))
+				r.newBlock()
 				continue
 			}
 			txn := e.FailingCall(t)
-			o, wrote, err := runC02(h, txn)
+			before := r.failedInBlock
+			o, wrote, err := r.run(txn)
 			if err != nil {
 				dump("C02", h)
 				t.Fatalf("%s", err.Error())
+			}
+			if !o.Failed && !o.Rejected && before > 0 {
+				afterFailed++
+				st.Class("successful_call_after_failed_call_in_block")
 			}
 			if o.Failed {
 				failed++
